@@ -1,7 +1,7 @@
 (* C13 — lemmas.  The work is in ProofsLexer / ProofsSink / ProofsParser /
    ProofsTree / ProofsInclude; this file assembles the statements Props.v uses. *)
 From Coq Require Import List NArith Bool Arith Lia.
-From FV.C13 Require Export Keywords Model ProofsLexer ProofsSink ProofsParser ProofsTree ProofsInclude ProofsSafe.
+From FV.C13 Require Export Keywords Model ProofsLexer ProofsSink ProofsParser ProofsTree ProofsInclude ProofsSafe ProofsCut.
 Import ListNotations.
 Open Scope nat_scope.
 
